@@ -134,7 +134,11 @@ def c14(ck):
     sc = [("listen_1_4_three_overlapping", 1, 4, ["0:1500:" + okr, "150:1500:" + okr, "300:100:" + okr], "served_early"),
           ("listen_1_2_two_overlapping", 1, 2, ["0:1200:" + okr, "200:100:" + okr], "served_early"),
           ("listen_3_2_third_waits", 3, 2, ["0:1500:" + okr, "150:1500:" + okr, "300:100:" + okr], "waits"),
-          ("listen_2_1_second_waits", 2, 1, ["0:1200:" + okr, "250:100:" + okr], "waits")]
+          ("listen_2_1_second_waits", 2, 1, ["0:1200:" + okr, "250:100:" + okr], "waits"),
+          # max_worker_threads = 0 is a legal value of the configuration field: connections are still served (one at a time)
+          # (initial_worker_threads = 0 is documented to panic and is not a configuration)
+          ("listen_1_0_second_waits", 1, 0, ["0:1200:" + okr, "250:100:" + okr], "waits"),
+          ("listen_3_0_single", 3, 0, ["0:200:" + okr], "waits")]
     lines = ["l%d listen_run 0 2600 %d %d %s | %s" % (i, ini, mx, DEFAULT_SVC.tokens(), " ".join(h)) for i, (_, ini, mx, h, _) in enumerate(sc)]
     res = run_lines(harness_bin("h_service"), lines, shards=len(lines), timeout=300, env=dict(ENV, VH_TMP=os.path.join(BUILD, "tmp")))
     for i, (name, ini, mx, h, kind) in enumerate(sc):
@@ -147,6 +151,12 @@ def c14(ck):
             ck.failures.append({"what": "listen-level pool scenario did not run", "scenario": name, "result": r[:300]})
             continue
         closed = [int(c.split(":")[1].split("@")[1]) for c in conns]
+        unanswered = [k for k, c in enumerate(conns) if len(c.split(":")) < 3 or c.split(":")[2] in ("", "-")]
+        if unanswered:
+            ck.failures.append({"what": "a connection accepted by listen() was never served: it got no reply to its request", "scenario": name,
+                                "initial_worker_threads": ini, "max_worker_threads": mx, "connections (connect ms : hold ms)": [x.rsplit(":", 1)[0] for x in h],
+                                "unanswered_connections": unanswered, "result": r[:300]})
+            continue
         first_end = int(h[0].split(":")[0]) + int(h[0].split(":")[1])
         last = closed[-1]
         desc = {"scenario": name, "initial_worker_threads": ini, "max_worker_threads": mx, "connections (connect ms : hold ms)": [x.rsplit(":", 1)[0] for x in h],
@@ -187,6 +197,9 @@ def c15(ck):
     sc.append(("stop_steady_arrivals", 0, 400, 1, 4, ["steady:0:2500:30"], {"ret": "ok", "not_before": 390, "not_after": 900}))
     sc.append(("stop_idle2_steady", 2, 500, 2, 3, ["steady:100:2500:40"], {"ret": "ok", "not_before": 490, "not_after": 1000}))
     sc.append(("idle1_stop_never", 1, 60000, 1, 4, [], {"ret": "Timeout", "not_before": 950, "not_after": 2400}))
+    # max_worker_threads = 0 (a legal value): accepted connections are served and accounted for as with any other limit
+    sc.append(("stop_max0_conn", 0, 500, 1, 0, ["100:100:" + ok_req], {"ret": "ok", "not_before": 490, "not_after": 1100, "complete": 1}))
+    sc.append(("idle1_max0_conn", 1, None, 1, 0, ["300:100:" + ok_req], {"ret": "Timeout", "not_before": 1250, "not_after": 3200, "complete": 1}))
     # a stop flag that is present but never set changes the poll quantum: the idle countdown must still restart with
     # every accepted connection
     sc.append(("idle1_stopflag_conn_midwindow", 1, 60000, 1, 4, ["700:100:" + ok_req], {"ret": "Timeout", "not_before": 1650, "not_after": 3300, "complete": 1}))
@@ -231,7 +244,7 @@ def c15(ck):
                 sample={"scenario": name, "idle_timeout_s": idle, "stop_flag_set_at_ms": stop, "history": [h[:40] for h in hist], "observed": r[:120]} if len(ck.samples) < 6 else None)
         ck.count("scenario")
         f = fields(r)
-        if "ret" not in f:
+        if "ret" not in f or "@" not in f["ret"]:
             ck.failures.append({"what": "listen run failed", "scenario": name, "result": r[:300]})
             continue
         kind, t = f["ret"].split("@")
@@ -355,8 +368,9 @@ def c13(ck):
                                     "got": got.decode("utf-8", "replace")[:600], "expected": want_alone.decode("utf-8", "replace")[:600]})
             if mid in model and canon_reply_stream(unhx(fields(model[mid]).get("out", "-"))) != canon_reply_stream(got):
                 ck.tie_broken.append("model/implementation disagree for a concurrent client: stream %s" % s.hex()[:300])
-    from check_service import c13_reference_multiplex
+    from check_service import c13_reference_multiplex, c13_reference_service
     c13_reference_multiplex(ck)
+    c13_reference_service(ck)
 
 
 CHECKS = {"C13": c13, "C14": c14, "C15": c15}
